@@ -40,11 +40,11 @@ Print Assumptions C11_jump_class_ops.
 (* a function with a jump behind another jump (the shape the unrepaired converter broke):
    the converted stream denotes the same program *)
 Example C11_two_jumps :
-  let ins := [12; 0; 6;  13; 0; 9;  21;  12; 0; 0;  41] in   (* JUMP 6; JUMPFALSY 9; NULL; JUMP 0; TRUE *)
+  let ins := [12; 0; 6;  13; 0; 10;  21;  12; 0; 0;  41] in   (* JUMP 6; JUMPFALSY 10; NULL; JUMP 0; TRUE *)
   let sm := [(0, 100); (3, 101); (7, 102)] in
   exists ins2 sm2, conv_comp_func ins sm = Ok (ins2, sm2) /\
     reloc_ok ins sm ins2 sm2 = true /\
-    ins2 = [12; 0; 0; 0; 10;  13; 0; 0; 0; 15;  21;  12; 0; 0; 0; 0;  41] /\
+    ins2 = [12; 0; 0; 0; 10;  13; 0; 0; 0; 16;  21;  12; 0; 0; 0; 0;  41] /\
     sm2 = [(0, 100); (5, 101); (11, 102)].
 Proof. vm_compute. eexists; eexists; repeat split; reflexivity. Qed.
 
